@@ -573,8 +573,21 @@ class SimulatorBattery:
                     for _ in range(40):
                         ev += 1
                         audit(f"coupling level {level}", cp.simulate_one_path_with_coupling(), eps)
+            # every state sampler the factory accepts must drive the coupled simulator (slices of several jumps included)
+            for meth in (SamplingMethod.ALIAS, SamplingMethod.TABLE, SamplingMethod.BINARYSEARCHTREE, SamplingMethod.HUFFMANNTREE, SamplingMethod.BINARYSEARCHTREEADAPTED1D):
+                ev += 1
+                try:
+                    cp = CouplingMarkovChain(model=m, method=meth, grid=CTMCUniformGrid(h=0.02, model=m))
+                    cp.initialisation(prod)
+                    cp.next_level(10, [type("PM", (), {"update": lambda s, x: None, "deterministic_path": None})()], prod)
+                    cp.pre_computation(10, prod)
+                    for _ in range(10):
+                        audit(f"coupling level 1, sampler {meth.name}", cp.simulate_one_path_with_coupling(), None)
+                except Exception as e:
+                    viol.setdefault("smp", {"obligation": f"{self.name}::coupled-simulator-runs-with-every-sampler", "bounded": self.name,
+                                            "witness": {"sampler": meth.name, "exception": f"{type(e).__name__}: {str(e)[:120]}"}})
         return {"name": self.name, "evaluations": ev, "distinct_nontrivial": ev, "violations": list(viol.values()), "samples": [],
-                "bound": "HEM, maturity 0.5, chain h=0.02, coupling h=0.08 levels 1-2, step cap none / 0.04, 40 paths each"}
+                "bound": "HEM, maturity 0.5, chain h=0.02, coupling h=0.08 levels 1-2, step cap none / 0.04, 40 paths each; coupling level 1 with 5 further samplers, 10 paths each"}
 
     def replay(self, rec):
         r = self.run("quick", 0)
